@@ -1588,13 +1588,9 @@ func (p *Posix) CompleteMultipartUpload(ctx context.Context, input *s3.CompleteM
 		return nil, s3err.GetAPIError(s3err.ErrExistingObjectIsDirectory)
 	}
 
-	// if the versioninng is enabled first create the file object version
-	if p.versioningEnabled() && vEnabled && err == nil && !d.IsDir() {
-		_, err := p.createObjVersion(bucket, object, d.Size(), acct)
-		if err != nil {
-			return nil, fmt.Errorf("create object version: %w", err)
-		}
-	}
+	// if the versioning is enabled the current object becomes a version;
+	// this is done once nothing can refuse the completion any more (below)
+	createVersion := p.versioningEnabled() && vEnabled && err == nil && !d.IsDir()
 
 	// if the versioning is enabled, generate a new versionID for the object
 	var versionID string
@@ -1715,6 +1711,14 @@ func (p *Posix) CompleteMultipartUpload(ctx context.Context, input *s3.CompleteM
 	err = p.meta.StoreAttribute(f.File(), bucket, object, etagkey, []byte(s3MD5))
 	if err != nil {
 		return nil, fmt.Errorf("set etag attr: %w", err)
+	}
+
+	// the checksums have been verified: keep the current object as a version
+	if createVersion {
+		_, err := p.createObjVersion(bucket, object, d.Size(), acct)
+		if err != nil {
+			return nil, fmt.Errorf("create object version: %w", err)
+		}
 	}
 
 	err = f.link()
